@@ -14,7 +14,7 @@ from .. import tlc, verdict
 from .common import validate_records
 
 CONFIGS = {
-    "quick": [dict(Vals0="{0,1,3}", Off="1", MaxLen="2", MaxB="3", BetaN="4", BetaD="5", Beta2N="1", Beta2D="2", NEp="2")],
+    "quick": [dict(Vals0="{0,1,3}", Off="1", MaxLen="2", MaxB="3", BetaN="4", BetaD="5", Beta2N="1", Beta2D="2", NEp="3")],
     "thorough": [dict(Vals0="{0,1,3}", Off="1", MaxLen="2", MaxB="4", BetaN="4", BetaD="5", Beta2N="1", Beta2D="2", NEp="2"),
                  dict(Vals0="{0,2,5}", Off="2", MaxLen="3", MaxB="3", BetaN="1", BetaD="2", Beta2N="0", Beta2D="1", NEp="3")],
 }
